@@ -15,7 +15,7 @@ CLASS_ATOM = {'field': 1, 'array_data': 2, 'array_meta': 3, 'xml': 4, 'errors': 
               'structure': 8, 'tricache': 20, 'imgcache': 21, 'fresh': 22}
 KIND_ATOM = {'scene_objects': 1, 'node_objects': 2, 'shapes': 3, 'polygon_triangles': 4, 'bound_triangleset': 5,
              'bound_item': 6, 'triangleset': 7, 'unbound_item': 8, 'input_list': 9, 'prim_props': 10, 'index_lib': 11,
-             'print': 12, 'image_data': 13, 'source_item': 14, 'effect_eq': 15, 'save': 30, 'own': 31}
+             'print': 12, 'image_data': 13, 'source_item': 14, 'effect_eq': 15, 'partial_iter': 16, 'save': 30, 'own': 31}
 
 FILES = ['cube_tristrips.dae', 'duck_polylist.dae', 'duck_triangles.dae', 'duck.zip', 'empty_triangles.dae',
          'empty_triangles_with_multiple_ns.dae', 'trifans.dae', 'tristrips.dae', 'wam.dae', 'wam.zae']
@@ -62,46 +62,53 @@ def gen_node(rng, depth, counter, allow_inst):
 
 
 def gen_prim(rng, nv, nn, ntex, ntexv, ntan=0):
+    """one primitive.  The inputs get every kind of offset layout: ascending, all shared, descending,
+    a random permutation, partly shared; several sets of one semantic (the same source may serve
+    two sets) are declared in an order that need not follow their offsets."""
     t = rng.choice(['triangles', 'triangles', 'polylist', 'polylist', 'polygons', 'lines'])
-    shared = rng.random() < 0.25          # every input at offset 0
-    inputs = [[0, 'VERTEX', 'pos', None]]
-    off = 0
-    use_n = nn > 0 and rng.random() < 0.7
-    if use_n:
-        off = 0 if shared else off + 1
-        inputs.append([off, 'NORMAL', 'nrm', None])
-    use_t = rng.randint(0, ntex) if ntex else 0
-    for ti in range(use_t):
-        off = 0 if shared else off + 1
-        inputs.append([off, 'TEXCOORD', 'uv%d' % ti, str(ti)])
-    use_tan = []
+    decl = [['VERTEX', 'pos', None, nv]]
+    if nn > 0 and rng.random() < 0.7:
+        decl.append(['NORMAL', 'nrm', None, nn])
+    if ntex:
+        sets = [rng.randrange(ntex) for _ in range(rng.choice([0, 1, 2, 2, 3]))]
+        for si, ti in enumerate(sets):
+            decl.append(['TEXCOORD', 'uv%d' % ti, str(si), ntexv])
     if ntan and rng.random() < 0.6:
         # tangents/binormals: only TriangleSet's constructor looks at them
         for sem, src in (('TEXTANGENT', 'tan'), ('TEXBINORMAL', 'bin')):
             if rng.random() < 0.7:
-                off = 0 if shared else off + 1
-                inputs.append([off, sem, src, '0'])
-                use_tan.append(sem)
-    stride = 1 if shared else off + 1
+                decl.append([sem, src, '0', ntan])
+    if rng.random() < 0.5:
+        rng.shuffle(decl)
+    n = len(decl)
+    layout = rng.choice(['ascending', 'ascending', 'shared', 'descending', 'permuted', 'permuted', 'partly_shared'])
+    if layout == 'ascending':
+        offs = list(range(n))
+    elif layout == 'shared':
+        offs = [0] * n
+    elif layout == 'descending':
+        offs = list(range(n - 1, -1, -1))
+    elif layout == 'permuted':
+        offs = list(range(n))
+        rng.shuffle(offs)
+    else:
+        offs = [rng.randrange(max(1, n - 1)) for _ in range(n)]
+    stride = max(offs) + 1
+    lim = [None] * stride
+    for o, d in zip(offs, decl):
+        lim[o] = d[3] if lim[o] is None else min(lim[o], d[3])
+    lim = [1 if x is None else x for x in lim]
+    inputs = [[o, d[0], d[1], d[2]] for o, d in zip(offs, decl)]
     nfaces = rng.choice([0, 1, 1, 2, 3, 5])
     per = {'triangles': 3, 'lines': 2}.get(t)
     vcounts = []
     index = []
-    lim = min([nv] + ([nn] if use_n else []) + ([ntexv] if use_t else []) + ([ntan] if use_tan else [])) if shared else None
     for _ in range(nfaces):
         vc = per or rng.choice([3, 3, 4, 5, 6])
         vcounts.append(vc)
         for _ in range(vc):
-            if shared:
-                index.append(rng.randrange(lim))
-            else:
-                index.append(rng.randrange(nv))
-                if use_n:
-                    index.append(rng.randrange(nn))
-                for _ti in range(use_t):
-                    index.append(rng.randrange(ntexv))
-                for _s in use_tan:
-                    index.append(rng.randrange(ntan))
+            for o in range(stride):
+                index.append(rng.randrange(lim[o]))
     p = {'type': t, 'inputs': inputs, 'index': index, 'material': rng.choice([None, 'sym0', 'sym1'])}
     if t in ('polylist', 'polygons'):
         p['vcounts'] = vcounts
@@ -150,7 +157,7 @@ def skin_doc(rng):
 
 
 def gen_query(rng):
-    k = rng.choice(['scene_objects', 'scene_objects', 'node_objects', 'shapes', 'shapes', 'polygon_triangles',
+    k = rng.choice(['scene_objects', 'scene_objects', 'node_objects', 'shapes', 'shapes', 'polygon_triangles', 'partial_iter',
                     'bound_triangleset', 'bound_item', 'triangleset', 'triangleset', 'unbound_item', 'input_list',
                     'prim_props', 'index_lib', 'print', 'image_data', 'source_item', 'effect_eq'])
     a, b, c = rng.randint(0, 5), rng.randint(0, 5), rng.randint(0, 7)
@@ -163,6 +170,8 @@ def gen_query(rng):
         return [k, rng.choice(TIPOS), a, m]
     if k in ('shapes', 'bound_triangleset', 'triangleset'):
         return [k, a, b, rng.choice([1, 3, 50])]
+    if k == 'partial_iter':
+        return [k, rng.choice(TIPOS), a, b]
     if k in ('polygon_triangles', 'bound_item', 'unbound_item', 'source_item'):
         return [k, a, b, c]
     if k in ('input_list', 'prim_props'):
@@ -306,7 +315,7 @@ def fixed_cases():
         ops.append(['scene_objects', t, -1])
     ops += [['shapes', 0, 0, 50], ['triangleset', 0, 0, 3], ['bound_triangleset', 0, 0, 3], ['save'],
             ['polygon_triangles', 0, 0, 1], ['bound_item', 0, 0, 2], ['unbound_item', 0, 0, 2], ['input_list', 0, 0],
-            ['prim_props', 0, 0], ['print'], ['own', 0, 0], ['image_data', 0], ['source_item', 0, 0, 1],
+            ['prim_props', 0, 0], ['print'], ['own', 0, 0], ['partial_iter', 'geometry', 0, 0], ['image_data', 0], ['source_item', 0, 0, 1],
             ['triangleset', 0, 0, 3], ['effect_eq', 0, 1], ['node_objects', 'geometry', 0, None], ['save'],
             ['shapes', 0, 0, 50], ['print']]
     ops += [['index_lib', l, 0] for l in LIBS]
